@@ -14,18 +14,27 @@ IN, OUT, AMBIG = "IN", "OUT", "AMBIG"
 # ---------------------------------------------------------------------------------------------------
 # Region geometry (regions are plain dicts as sent to / returned by the API)
 # ---------------------------------------------------------------------------------------------------
+def _num(v):
+    try:
+        return float(v)
+    except (TypeError, ValueError):
+        return repr(v)        # not a number: keep it visible, never crash the harness
+
+
 def norm_region(d):
     """Canonical dict of a region request, mirroring only the documented normalisation
     (floats; rectangle corners ordered)."""
-    if d["type"] == "RectangularRegion":
-        x1, y1, x2, y2 = (float(d.get(k, 0)) for k in ("x1", "y1", "x2", "y2"))
+    if d.get("type") == "RectangularRegion":
+        x1, y1, x2, y2 = (_num(d.get(k, 0)) for k in ("x1", "y1", "x2", "y2"))
+        if any(isinstance(v, str) for v in (x1, y1, x2, y2)):
+            return {"type": "RectangularRegion", "id": d.get("id"), "x1": x1, "y1": y1, "x2": x2, "y2": y2}
         if x2 < x1:
             x1, x2 = x2, x1
         if y2 < y1:
             y1, y2 = y2, y1
         return {"type": "RectangularRegion", "id": d.get("id"), "x1": x1, "y1": y1, "x2": x2, "y2": y2}
-    return {"type": "CircularRegion", "id": d.get("id"),
-            "cx": float(d.get("cx", 0)), "cy": float(d.get("cy", 0)), "r": float(d.get("r", 0))}
+    return {"type": d.get("type"), "id": d.get("id"),
+            "cx": _num(d.get("cx", 0)), "cy": _num(d.get("cy", 0)), "r": _num(d.get("r", 0))}
 
 
 def depth(reg, x, y):
